@@ -417,6 +417,67 @@ func registerIntercepts(e *Engine) {
 		st.heap[mutexCell(c, st, args[0])] = smt.IntC(2)
 		return one(st, nil)
 	})
+	// sync.Map: an association list per map object (keys compared with ==)
+	syncMapCell := func(c *CallCtx, st *State, v Value) int {
+		p := v.(Ptr)
+		return c.E.namedCell(st, fmt.Sprintf("syncmap:%d%v", p.Cell, p.Path), func() Value { return &MapData{} })
+	}
+	syncMapLoad := func(c *CallCtx, st *State, args []Value) []Outcome {
+		md := st.heap[syncMapCell(c, st, args[0])].(*MapData)
+		var outs []Outcome
+		cur := st
+		for _, en := range md.Ent {
+			hit := smt.And(en.Live, c.E.valEq(en.K, args[1]))
+			if hit.IsFalse() {
+				continue
+			}
+			if hit.IsTrue() {
+				outs = append(outs, Outcome{St: cur, Ret: Tuple{en.V, smt.True}})
+				cur = nil
+				break
+			}
+			if c.E.feasible(cur, hit) {
+				h := cur.Clone()
+				h.Assume(hit)
+				outs = append(outs, Outcome{St: h, Ret: Tuple{en.V, smt.True}})
+			}
+			cur.Assume(smt.Not(hit))
+		}
+		if cur != nil && !cur.Infeasible() {
+			outs = append(outs, Outcome{St: cur, Ret: Tuple{Iface{}, smt.False}})
+		}
+		return outs
+	}
+	e.reg("(*sync.Map).Load", syncMapLoad)
+	e.reg("(*sync.Map).Store", func(c *CallCtx, st *State, args []Value) []Outcome {
+		cell := syncMapCell(c, st, args[0])
+		md := st.heap[cell].(*MapData)
+		ne := make([]MapEnt, 0, len(md.Ent)+1)
+		for _, en := range md.Ent {
+			hit := smt.And(en.Live, c.E.valEq(en.K, args[1]))
+			if hit.IsTrue() || (!hit.IsFalse() && !c.E.feasible(st, smt.Not(hit))) {
+				continue // replaced
+			}
+			if !hit.IsFalse() && c.E.feasible(st, hit) {
+				c.E.abort("sync.Map.Store with a key that may or may not equal an existing key is not modelled")
+			}
+			ne = append(ne, en)
+		}
+		ne = append(ne, MapEnt{K: args[1], V: args[2], Live: smt.True})
+		st.heap[cell] = &MapData{Ent: ne}
+		return one(st, nil)
+	})
+	e.reg("(*sync.Map).Delete", func(c *CallCtx, st *State, args []Value) []Outcome {
+		cell := syncMapCell(c, st, args[0])
+		md := st.heap[cell].(*MapData)
+		ne := make([]MapEnt, len(md.Ent))
+		for i, en := range md.Ent {
+			ne[i] = en
+			ne[i].Live = smt.And(en.Live, smt.Not(c.E.valEq(en.K, args[1])))
+		}
+		st.heap[cell] = &MapData{Ent: ne}
+		return one(st, nil)
+	})
 	e.reg("(*sync.RWMutex).Lock", lock(1))
 	e.reg("(*sync.RWMutex).Unlock", lock(0))
 	e.reg("(*sync.RWMutex).RLock", noop)
